@@ -31,6 +31,7 @@ type scopeSpec struct {
 	// only be inconclusive there (e.g. Dart for a single quote in the prefix);
 	// the thorough tier evaluates every target on the random exotic scopes.
 	SkipLangs map[string]bool
+	Layout    string // layout variant after the `prefix` keyword in the rendered IDL
 }
 
 // batch is one IDL file compiled once per (delimiter, target).
@@ -271,6 +272,33 @@ func finishBatch(b *batch) {
 		}
 	}
 	b.Text = idl.RenderFile(f, idl.DefaultStyle())
+	// layout variants after the `prefix` keyword (the grammar allows any run of
+	// blanks, tabs, newlines and comments there): the prescribed topic does not
+	// depend on the layout
+	n := 0
+	for _, sp := range b.Scopes {
+		if sp.Scope.Prefix == "" {
+			continue
+		}
+		lay := prefixLayouts[n%len(prefixLayouts)]
+		n++
+		head := "scope " + sp.Scope.Name + " prefix "
+		if strings.Count(b.Text, head) != 1 {
+			continue
+		}
+		sp.Layout = lay.name
+		b.Text = strings.Replace(b.Text, head, "scope "+sp.Scope.Name+lay.before+"prefix"+lay.after, 1)
+	}
+}
+
+// prefixLayouts: white space / comments around the `prefix` keyword.
+var prefixLayouts = []struct{ name, before, after string }{
+	{"two-blanks", " ", "  "},
+	{"one-blank", " ", " "},
+	{"tab", "\t", "\t"},
+	{"newline", "\n    ", "\n        "},
+	{"blank-tab-blank", "  ", " \t "},
+	{"comment", " ", " /* c */ "},
 }
 
 // genBatch draws one file; exoticKind != "" makes every scope of the file carry
